@@ -46,7 +46,7 @@ AllProfiles == {
     \* relative due times of exactly 0 and below 0 (with raises and both verdicts, siblings at one instant)
     Prof("q_zero",     3, 1, 2, 2, 0, {0, Neg1}, {}, {}, 4, {"adv"}),
     \* actions that return a child's handle; the outer handle is disposed by a sibling (cancel) afterwards
-    Prof("q_ret",      3, 2, 1, 1, 1, {1}, {2}, {}, 4, {"adv"}),
+    Prof("q_ret",      3, 2, 1, 0, 1, {1}, {2}, {}, 4, {"adv"}),
     Prof("t_ret",      4, 2, 1, 1, 1, {1}, {2}, {2}, 4, {"adv"}),
     Prof("q_cancel",   3, 2, 1, 0, 1, {1}, {2}, {}, 4, {"start"}),
     \* thorough
@@ -88,7 +88,8 @@ vars == <<cfgv, retc, clock, queue, cancelled, nseq, mode, target, draining, cur
 Verdicts == [Exc -> BOOLEAN]
 
 Init == /\ prof \in {q \in AllProfiles : q.name \in Profiles}
-        /\ verdict \in Verdicts /\ drv \in prof.drivers
+        \* without raises the handler is never consulted: one table is enough
+        /\ verdict \in (IF prof.raises = 0 THEN {[e \in Exc |-> TRUE]} ELSE Verdicts) /\ drv \in prof.drivers
         /\ clock = 0 /\ queue = <<>> /\ cancelled = {} /\ nseq = 1
         /\ mode = "setup" /\ target = prof.horizon /\ draining = FALSE /\ cur = NoEntry /\ left = 0 /\ exc = 0
         /\ nextId = 1 /\ nkind = [i \in 1..prof.nodes |-> "none"] /\ nper = [i \in 1..prof.nodes |-> 0]
